@@ -261,6 +261,11 @@ def replay_one(scn, rec, opts):
                         b = real.bound_registry()
                         if b:
                             viol = ("bound", "%d variables still bound although no query is suspended" % len(b))
+                    if viol is None:
+                        lv = runner.check_live()
+                        if lv:
+                            viol = ("live", "the answer a suspended query is standing at changed while something else ran")
+                            obs, exp = lv, []
                     if viol is None and opts.get("c15", True):
                         fz = runner.check_frozen()
                         if fz:
